@@ -276,6 +276,10 @@ func (o *ownInfo) param(x *ssa.Parameter, depth int) (bool, string) {
 		}
 	}
 	sites := o.sh.callers[fn]
+	if k := funcKey(fn); k == "model.(*DecisionMaker).MakeDecision" || k == "model.(*PreferenceFunctions).FetchParameters" {
+		// the library's entry points: whatever is handed in belongs to the caller (the HTTP handler is only one caller)
+		return true, "parameter " + x.Name() + " of the library entry point " + k + " (caller-owned)"
+	}
 	if idx == 0 && len(sites) == 0 && fn.Signature.Recv() != nil {
 		// method called back by external code (sort.Sort(&x)): the receiver is the value that was converted to the interface
 		found := false
